@@ -67,6 +67,41 @@ impl std::io::Write for Trickle {
     }
 }
 
+/// A sink that fails after `left` bytes (a closed pipe, a full disk).
+pub struct FailingSink {
+    pub left: usize,
+}
+
+impl std::io::Write for FailingSink {
+    fn write(&mut self, buf: &[u8]) -> std::io::Result<usize> {
+        if self.left == 0 {
+            return Err(std::io::Error::new(std::io::ErrorKind::BrokenPipe, "sink closed"));
+        }
+        let k = buf.len().min(self.left);
+        self.left -= k;
+        Ok(k)
+    }
+    fn flush(&mut self) -> std::io::Result<()> {
+        Ok(())
+    }
+}
+
+/// Every writer call is first made on a sink that fails after `k` bytes; its outcome is ignored. Whatever those calls leave behind -
+/// in the writer objects (unit structs), in thread-local or static buffers - must not show in later output.
+fn poison_writers(k: usize) {
+    let labels: Vec<String> = vec!["stale_a".into(), "stale_b".into(), "stale_c".into()];
+    let set = ArgumentSet::new_with_labels(&labels);
+    let args: Vec<&Argument<String>> = labels.iter().map(|l| set.get_argument(l).unwrap()).collect();
+    let _ = ResponseWriter::<String>::write_single_extension(&AspartixWriter, &mut FailingSink { left: k }, &args);
+    let ulabels: Vec<usize> = vec![777_001, 777_002, 777_003];
+    let uset = ArgumentSet::new_with_labels(&ulabels);
+    let uargs: Vec<&Argument<usize>> = ulabels.iter().map(|l| uset.get_argument(l).unwrap()).collect();
+    let _ = ResponseWriter::<usize>::write_single_extension(&Iccma23Writer, &mut FailingSink { left: k }, &uargs);
+    let mut af: AAFramework<String> = AAFramework::new_with_argument_set(ArgumentSet::new_with_labels(&labels));
+    let _ = af.new_attack(&labels[0], &labels[1]);
+    let _ = AspartixWriter.write_framework(&af, &mut FailingSink { left: k });
+}
+
 fn big_label(style: u8, i: usize) -> String {
     match style % 4 {
         0 => format!("a{}", i),
@@ -241,6 +276,14 @@ impl Writers {
             .boxed()
     }
     fn run_hist(&self, case: &WriterCase, rec: &mut Rec) -> CheckResult {
+        if case.usize_stride % 2 == 0 {
+            // half of the cases: failed writes precede the checked ones
+            let k = (case.ext_picks.first().copied().unwrap_or(0) % 24) as usize;
+            // what such a call returns (or whether it panics) is not the property's subject: only what the
+            // later, successful calls emit is judged
+            let _ = guard(|| poison_writers(k));
+            rec.class("after-failed-writes-on-a-closing-sink");
+        }
         let lab = |l: u8| apx_label(case.style, l as usize);
         // model: creation-ordered live labels and attack set
         let mut order: Vec<u8> = vec![];
